@@ -90,6 +90,10 @@ func Decode(addr string) (string, []byte, error) {
 		return "", nil, err
 	}
 
+	if len(data) == 0 {
+		return hrp, data, fmt.Errorf("missing witness version")
+	}
+
 	encoding, err := EncodingTypeFromSegwitVersion(data[0])
 	if err != nil {
 		return hrp, data, err
